@@ -317,6 +317,9 @@ mod codec;
 mod core;
 mod io;
 
+#[cfg(feature = "verif")]
+pub mod verif;
+
 pub use crate::client::*;
 pub use crate::codec::RetainHandling;
 pub use crate::core::{QoS, UserProperties};
